@@ -424,7 +424,7 @@ func extraPhases(run *verdict.Run) {
 		return t
 	}
 	const bound = 20 * time.Second
-	for i := 0; i < run.Pick(6, 40); i++ {
+	for i := 0; i < run.Pick(8, 40); i++ {
 		wg.Add(1)
 		go func(i int) {
 			defer wg.Done()
@@ -434,7 +434,24 @@ func extraPhases(run *verdict.Run) {
 			}
 			defer tc.Close()
 			run.Eval(1)
-			switch i % 3 {
+			switch i % 4 {
+			case 3: // a request the server must refuse (upper-case field name), then well-formed ones on the same connection
+				run.Add("raw_requests_after_a_refused_header_block", 1)
+				run.Distinct(fmt.Sprintf("after-refused-%d", i))
+				p.Preface()
+				bad := append(h2peer.GetFields("front.example", "/dl?n=10"), hpack.HeaderField{Name: "X-Upper-Case", Value: "1"})
+				p.Request(1, true, bad...)
+				p.Fence(bound)
+				for k, sid := 0, uint32(3); k < 3; k, sid = k+1, sid+2 {
+					n := 1000 + 777*k + i
+					p.Request(sid, true, h2peer.GetFields("front.example", fmt.Sprintf("/dl?n=%d", n), hpack.HeaderField{Name: "x-after", Value: fmt.Sprint(k)})...)
+					r, ok := p.WaitResponse(sid, bound)
+					if !ok || r.Reset || r.Status != "200" || !dlOK(r.Body, n) {
+						run.Violation("well-formed-request-refused-after-a-malformed-one", map[string]any{"request": k, "stream": sid, "complete": ok, "reset": r.Reset, "reset_code": fmt.Sprint(r.ResetCode), "status": r.Status, "bytes": len(r.Body)},
+							"a header block with an upper-case field name was refused on stream 1; well-formed request #%d on the same connection (stream %d, %d-byte download): complete=%v reset=%v (%v) status=%q bytes=%d", k, sid, n, ok, r.Reset, r.ResetCode, r.Status, len(r.Body))
+						return
+					}
+				}
 			case 0: // upload: GOAWAY(NO_ERROR) between two DATA frames of the connection's last request
 				run.Add("raw_goaway_mid_upload", 1)
 				run.Distinct(fmt.Sprintf("goaway-upload-%d", i))
